@@ -19,6 +19,7 @@ mod c14;
 mod c16;
 mod c17;
 mod c18;
+mod c19;
 mod c20;
 
 use common::*;
@@ -46,6 +47,7 @@ fn table() -> Vec<(&'static str, &'static str, Explore, Replay)> {
         ("C16", "exploration", c16::explore, c16::replay),
         ("C17", "exploration", c17::explore, c17::replay),
         ("C18", "exploration", c18::explore, c18::replay),
+        ("C19", "exploration", c19::explore, c19::replay),
         ("C20", "exploration", c20::explore, c20::replay),
     ]
 }
